@@ -114,6 +114,12 @@ fn run_case(cfg: &Config, hist: &[Op], plan: Option<(usize, FaultMode)>) -> Case
     Ok(Err(e)) => return finish(fail(format!("after {} -> {okerr}: the index cannot be reopened / read: {e:#}", op.short()))),
     Err(p) => return finish(fail(format!("reopen panicked: {p}"))),
   };
+  let pre_log = ex.model.log.clone();
+  if plan.is_some() {
+    if let Err(w) = check_durable_queue(&ex.env, op, res.is_ok(), &pre_log, &post_model.log) {
+      return finish(fail(w));
+    }
+  }
   let outcome;
   match &res {
     Ok(()) => {
@@ -173,6 +179,67 @@ fn run_case(cfg: &Config, hist: &[Op], plan: Option<(usize, FaultMode)>) -> Case
     }
   }
   finish(Case { sites: seen, verdict: Some(Ok(())), outcome, site, calls })
+}
+
+
+/// The durable queue: operations in the log after the last commit marker, as (kind, id).
+fn durable_queue(env: &Env) -> anyhow::Result<Vec<(String, String)>> {
+  let recs = wal_records(env)?;
+  let start = recs.iter().rposition(|r| r == "commit").map(|i| i + 1).unwrap_or(0);
+  Ok(
+    recs[start..]
+      .iter()
+      .map(|r| {
+        let mut it = r.splitn(3, ':');
+        (it.next().unwrap_or("").to_string(), it.next().unwrap_or("").to_string())
+      })
+      .collect(),
+  )
+}
+
+fn model_queue(log: &[QOp]) -> Vec<(String, String)> {
+  log
+    .iter()
+    .map(|q| match q {
+      QOp::Add(id, _) => ("add".to_string(), id.clone()),
+      QOp::Del(id) => ("del".to_string(), id.clone()),
+    })
+    .collect()
+}
+
+/// "... with the queued operations still retryable": the queue lives in the log, which is what a
+/// later handle (or process) replays. After Err the log must still hold the operations queued
+/// before the call (a failed add / delete may or may not have reached it; a failed rollback may
+/// or may not have emptied it); after Ok it must hold the model's queue.
+fn check_durable_queue(env: &Env, op: &Op, ok: bool, pre_log: &[QOp], post_log: &[QOp]) -> Result<(), String> {
+  let got = match durable_queue(env) {
+    Ok(g) => g,
+    Err(e) => return Err(format!("the log cannot be replayed after {} -> {}: {e:#}", op.short(), if ok { "Ok" } else { "Err" })),
+  };
+  let pre = model_queue(pre_log);
+  let post = model_queue(post_log);
+  let mut allowed: Vec<Vec<(String, String)>> = Vec::new();
+  if ok {
+    allowed.push(post);
+  } else {
+    allowed.push(pre.clone());
+    match op {
+      Op::Add(..) | Op::Del(..) => allowed.push(post),
+      Op::Rollback(_) => allowed.push(Vec::new()),
+      _ => {}
+    }
+  }
+  if allowed.contains(&got) {
+    Ok(())
+  } else {
+    Err(format!(
+      "{} returned {} but the log now holds the queued operations {:?}; expected {:?} (a new handle replays the log, so the queued operations are no longer retryable)",
+      op.short(),
+      if ok { "Ok" } else { "Err" },
+      got,
+      allowed
+    ))
+  }
 }
 
 struct TaskOut {
@@ -288,14 +355,17 @@ pub fn run(ctx: &Ctx) -> i32 {
     vec![Op::New(0), a("A", "1"), a("B", "1"), Op::Commit(0), a("A", "2"), Op::Commit(0)],
     // queued operations and an open handle: depth 1 already faults inside non-trivial commits
     vec![Op::New(0), a("A", "1"), Op::Commit(0), a("B", "1"), Op::Del(0, "A".into())],
+    // a fresh handle over a non-empty log: its own append cursor has not moved yet
+    vec![Op::New(0), a("A", "1"), Op::Commit(0), a("B", "1"), Op::Del(0, "A".into()), Op::DropH(0), Op::New(0)],
   ];
   let mut seen: HashSet<String> = HashSet::new();
   let mut frontier: Vec<(Vec<Op>, Model, usize)> = Vec::new();
   for r in roots {
     let o = execute(&cfg, &r);
-    if seen.insert(o.key.clone()) {
-      frontier.push((r, o.model, o.nseg));
-    }
+    // roots are never merged: the last one equals another in the model (same contents, queue and
+    // handle state) but differs in the implementation (a replayed vs a self-written log)
+    seen.insert(o.key.clone());
+    frontier.push((r, o.model, o.nseg));
   }
   let mut states = frontier.len() as u64;
   let (mut transitions, mut cases, mut fired) = (0u64, 0u64, 0u64);
@@ -377,7 +447,7 @@ pub fn run(ctx: &Ctx) -> i32 {
   }
   let cov = vcore::cov! {
     "distinct_nontrivial" => fired,
-    "rule" => "for every state of a BFS over single-handle histories on a real filesystem index (roots: empty, one segment, two segments + tombstone, one segment + queued add and delete) and every enabled operation: the operation is executed once per state-changing system call it issues under the index directory (open for writing / creating, write, pwrite, writev, ftruncate, fsync, fdatasync, rename, unlink, mkdir, rmdir - interposed at the libc boundary of this process), with EIO returned before the call or after its effect. Err => a new reader on the same Index and a reopened index show the pre-state, and a retry without faults succeeds with the post-state (also after a reopen); Ok => both views show the post-state; never a panic.",
+    "rule" => "for every state of a BFS over single-handle histories on a real filesystem index (roots: empty, one segment, two segments + tombstone, one segment + queued add and delete with the queueing handle alive / replaced by a fresh one) and every enabled operation: the operation is executed once per state-changing system call it issues under the index directory (open for writing / creating, write, pwrite, writev, ftruncate, fsync, fdatasync, rename, unlink, mkdir, rmdir - interposed at the libc boundary of this process), with EIO returned before the call or after its effect. Err => a new reader on the same Index and a reopened index show the pre-state, and a retry without faults succeeds with the post-state (also after a reopen); Ok => both views show the post-state; never a panic. In both cases the operations the log holds after the call (what a later handle replays) must be the queue of the model.",
     "states" => states,
     "transitions" => transitions,
     "single_fault_cases_fired" => fired,
